@@ -89,8 +89,8 @@ func evalProgram(vm *r.VM, program *syntax.Program, varInputs r.ElementMap) (r.E
 }
 
 func evalExecBlock(vm *r.VM, execBlock *syntax.ExecBlock, params []r.Element) (r.Element, error) {
-	vm.BeginScope()
-	defer vm.EndScope()
+	blockScope := vm.BeginScope()
+	defer blockScope.EndScope()
 
 	blockModule := vm.GetCurrentModule()
 	// call depth of this body: calls abandoned by an exception are unwound to it
@@ -157,8 +157,8 @@ func evalStmtBlock(vm *r.VM, stmtBlock *syntax.StmtBlock) (r.Element, error) {
 
 // evalPureStmtBlock - evaluate statement block without classDef/funcDef/import statements
 func evalPureStmtBlock(vm *r.VM, stmtBlock *syntax.StmtBlock) (r.Element, error) {
-	vm.BeginScope()
-	defer vm.EndScope()
+	blockScope := vm.BeginScope()
+	defer blockScope.EndScope()
 
 	var rtnValue r.Element
 	var err error
@@ -592,8 +592,8 @@ func evalBranchStmt(vm *r.VM, node *syntax.BranchStmt) error {
 }
 
 func evalIterateStmt(vm *r.VM, node *syntax.IterateStmt) error {
-	vm.BeginScope()
-	defer vm.EndScope()
+	blockScope := vm.BeginScope()
+	defer blockScope.EndScope()
 
 	// pre-defined key, value variable name
 	var keySlot, valueSlot *r.IDName
